@@ -21,6 +21,12 @@ def run_schedule(mkview, sched):
             except Exception as e:   # noqa
                 its.append(None)
                 trace.append('CRASH:' + type(e).__name__)
+        elif op == 'L':
+            # len(view): a complete pass of its own, which is also what list(view), tuple(view) and bool(view) start with
+            try:
+                trace.append('len=%d' % len(view))
+            except Exception as e:   # noqa
+                trace.append('CRASH:' + type(e).__name__)
         elif op[0] == 'd':
             # abandon: the iterator is released (its generator is closed)
             i = int(op[1:])
@@ -57,6 +63,8 @@ def spec_trace(solo, sched):
         if op == 'n':
             pos.append(0)
             out.append('.')
+        elif op == 'L':
+            out.append('len=%d' % len(solo))
         elif op[0] == 'd':
             i = int(op[1:])
             if i < len(pos):
@@ -95,6 +103,11 @@ def schedules(rng, nrows, thorough, how_many=None):
                 ops.append('x%d' % rng.randrange(created))
         extra.append(ops)
     scheds += extra
+    # len(view) (what list(view) and bool(view) start with) while iterators are at various positions
+    for j in range(0, full + 1):
+        for k in range(0, min(j, 3) + 1):
+            scheds.append(['n'] + ['x0'] * j + ['d0', 'n'] + ['x1'] * k + ['L'] + ['x1'] * full)
+            scheds.append(['n', 'n'] + ['x0'] * j + ['x1'] * k + ['L'] + ['x1'] * full + ['x0'] * full)
     # an iterator released (closed) after j steps, then a later iterator advanced
     for j in range(0, full + 1):
         scheds.append(['n'] + ['x0'] * j + ['d0'])
@@ -218,7 +231,7 @@ def run(ctx):
                                   'an iterator over %s does not yield the rows of a solo pass under this schedule' % name,
                                   {'view': name, 'source_rows': r, 'schedule': ' '.join(sched), 'first_bad_op': bad,
                                    'got': trace[bad], 'want': want[bad], 'trace': trace})
-                if mach is not None and mach[0] == 'cache' and not any(o[0] == 'd' for o in sched):
+                if mach is not None and mach[0] == 'cache' and not any(o[0] in 'dL' for o in sched):
                     mach_lines.append('mach cache 1 %s %s %s' % (proto.enc_opt(mach[1]), proto.enc_table([tuple(x) for x in mach[2]]),
                                                                  proto.enc_list(sched)))
                     mach_meta.append((name, sched, trace, len(view.cache), view.cachecomplete))
